@@ -18,7 +18,7 @@ import numpy as np
 
 RULE = (
     "eight exhaustive lattices.  wmom-1d: x in V^L (V = 0,1,2.5,-1,10 + one seed-chosen generic value) "
-    "x w in {1,2,0,1e6}^L (sum>0) x inputmean {None,1.5,1-element array} x container {f8,list,i8}; every case "
+    "x w in {1,2,0,1e6}^L (sum>0) x inputmean {None,1.5,0.0,0,-1.0,1-element arrays incl. zero} x container {f8,list,i8}; every case "
     "calls wmom with all four calcerr/sdev settings and (no inputmean) wmedian; non-trivial = weights not all "
     "equal or a mean supplied.  wmom-nd: every N-by-d matrix (N,d<=3) over {0,2.5,-1} (3x3: columns from a "
     "5-column pool, thorough: 27x27x5 columns) x (every 1-d weight "
@@ -433,7 +433,7 @@ def main(ctx):
     LR = ctx.pick(4, 5)          # reduced alphabets
     VR = (0.0, 2.5, -1.0)
     WR = (1.0, 0.0, 1e6)
-    IMS = (None, 1.5, ("arr", (1.5,)))
+    IMS = (None, 1.5, 0.0, 0, -1.0, ("arr", (1.5,)), ("arr", (0.0,)))
     units1 = []
 
     def add1(cont, fam, L, xal):
@@ -462,7 +462,7 @@ def main(ctx):
     ctx.lattice("wmom-1d", units1, one_w1, expand=expand1,
                 bounds=dict(max_len_full=L1, max_len_list_i8=LC, len_reduced=LR, x_alphabet=list(VG),
                             w_alphabet=list(W), x_reduced=list(VR), w_reduced=list(WR),
-                            inputmean=[None, 1.5, "array([1.5])"], calcerr=[False, True], sdev=[False, True],
+                            inputmean=[None, 1.5, 0.0, 0, -1.0, "array([1.5])", "array([0.0])"], calcerr=[False, True], sdev=[False, True],
                             containers=["f8", "list", "i8"]))
 
     # ------------------------------------------------------------------
@@ -531,7 +531,7 @@ def main(ctx):
 
     def expandn(u):
         N, d, c0, red = u
-        ims = (None, 1.5, ("arr", tuple(1.5 - j for j in range(d))))
+        ims = (None, 1.5, 0.0, ("arr", tuple(1.5 - j for j in range(d))), ("arr", (0.0,) * d))
         ws = wspecs(N, d)
         if N == 3 and d == 3 and not red:
             rests = itertools.product(colpool(3, False), colpool(3, True))
@@ -547,7 +547,7 @@ def main(ctx):
                 bounds=dict(N=[1, 2, 3], d=[1, 2, 3], x_alphabet=list(XA), columns_3x3=mode33,
                             w1d_alphabet=list(W), wnd_column_pool={str(k): [list(c) for c in v]
                                                                    for k, v in WPOOL.items()},
-                            inputmean=[None, 1.5, "array(1.5 - arange(d))"]))
+                            inputmean=[None, 1.5, 0.0, "array(1.5 - arange(d))", "zeros(d)"]))
 
     # ------------------------------------------------------------------
     # part 3: weighted median on longer arrays
